@@ -298,6 +298,31 @@ def check_C10(tier):
                            "malformed; media on the active or another stream), on the real ClientSession; each call judged by CliStep")
 
 
+def check_C18(tier):
+    out = Outcome("C18", tier, "model_checking")
+    wd = vlib.workdir("C18")
+    r = vlib.model_check("MC_Chunk.tla", "MC_Chunk_quick.cfg", wd)
+    out.add_s1(r, "MC_Chunk_quick (drops; the receiver that judges the session bytes)")
+    logs = sess_logs(wd, "server", "wire", tier) + sess_logs(wd, "client", "wire", tier)
+    wires = [(pth + ".wire", info) for pth, info in logs]
+    # (a) byte level: every returned packet, in returned order, under every drop subset, must decode to the
+    #     message the session asked its serializer to encode for that packet
+    res = chunk_validate(out, wires, wd, True, True, is_ser, "c18")
+    out.cov["packets_returned"] = sum(i.get("packets", 0) for _, i in logs)
+    out.cov["packets_serialized_but_never_returned"] = sum(i.get("lost", 0) for _, i in logs)
+    out.cov["drop_branch_states"] = sum(x["distinct"] for x in res)
+    # (b) message level: decodable by the peer, droppable mark only on media
+    sess_validate(out, "Trace_Server.tla", [x for x in logs if "server_" in x[0]], wd, lambda v: v["class"] == "WIRE", "c18s")
+    sess_validate(out, "Trace_Client.tla", [x for x in logs if "client_" in x[0]], wd, lambda v: v["class"] == "WIRE", "c18c")
+    sample_events(out, wires[0][0], ("Ser",), n=2)
+    out.assumptions = CHUNK_ASSUME + ["serializer tap hook: the header/payload a session handed to its serializer for each packet",
+                                      "clock hook: the session uptime is set before each call from a schedule crossing 2^24 and 2^32 ms"]
+    return out.finish(rule="C09/C10 histories extended with media sends on both real sessions, every configuration class, session "
+                           "uptime scheduled across 2^24-1/2^24/2^32-1/2^32 ms with equal/+1/huge/backward steps; all returned "
+                           "packets concatenated in returned order and parsed by the TLA+ reference receiver under ALL subsets of "
+                           "dropped droppable packets")
+
+
 def check_C17(tier):
     out = Outcome("C17", tier, "model_checking")
     wd = vlib.workdir("C17")
